@@ -1,0 +1,18 @@
+//! Verification hook H2 (compiled only with `--cfg csl_verif`): the primitive operations that `create_send_all`
+//! applied to every transaction proposal it finished, with the figures `set_min_ada_for_tx` computed after each
+//! step.  Read by the C13 correspondence harness; never compiled into the library otherwise.
+use std::cell::RefCell;
+
+thread_local! {
+    static SEND_ALL_TRACES: RefCell<Vec<Vec<String>>> = RefCell::new(Vec::new());
+}
+
+/// Called when a proposal is finished (TxBatchBuilder::build).
+pub(crate) fn record_send_all_trace(trace: &Vec<String>) {
+    SEND_ALL_TRACES.with(|t| t.borrow_mut().push(trace.clone()));
+}
+
+/// The traces recorded on this thread since the last call, one per finished proposal, in order.
+pub fn take_send_all_traces() -> Vec<Vec<String>> {
+    SEND_ALL_TRACES.with(|t| t.borrow_mut().drain(..).collect())
+}
